@@ -243,7 +243,7 @@ func init() {
 		rule := "part (a): case = one pair (or triple) of generated transaction programs over a 6-row table t(id, k, v) (every column skip-list indexed, or id unique / B-tree indexed through the catalog API): 2 programs x 2 statements + end (and 3 x 1 + end); ALL statement-granularity merge orders are executed, each on a fresh in-memory database, one goroutine, explicit transaction handles; a statement that aborts ends its transaction. "
 		if id == "C04" {
 			rule += "Statements: point read through the index path / the scan path, range read, read by non-unique key, insert, delete, non-key update, key-changing update, relocating update. Oracle: a read that COMPLETES must return exactly eval(query, committed state + own earlier writes) at that moment; after all transactions ended the table must equal the model. " +
-				"Part (b): goroutine histories with unique tokens (see c04b.go). Non-trivial execution = a read is executed while another open transaction has an uncommitted write on a row the read addresses; distinct by (programs, order)"
+				"Part (b): goroutine histories with unique tokens (see c04b.go). Part (c): reader goroutines (id-range, k-index and full-scan reads over 40-120 rows whose ids never change) racing with writer goroutines whose committed and aborted transactions change the row length (rows move to other slots / pages): a read that completes must return every id of its range exactly once, only final values of transactions whose Commit had been called before it returned, and nothing overwritten by a transaction that committed before it was invoked (see c04c.go). Non-trivial execution = a read is executed while another open transaction has an uncommitted write on a row the read addresses (c: a committed writer of its range overlapped it); distinct by (programs, order)"
 		} else {
 			rule += "Programs: read-modify-write (read a row, append a unique token to what was read; blind overwrites; lost-update and write-skew shapes over 3 hot rows). Oracle: the committed transactions' observed reads and the final table must equal those of SOME serial order of the committed transactions (all permutations are simulated on the reference model). " +
 				"Part (b): goroutine histories, item-level dependency graph (see c04b.go). Non-trivial execution = two committed transactions accessed a common row and at least one wrote it; distinct by (programs, order)"
@@ -254,13 +254,19 @@ func init() {
 			Rule:        rule,
 			Assumptions: []string{"aborting is always allowed (no-wait locking); the run fails as vacuous if fewer than 30 % of the reads complete", "phantoms are the documented exception: C05 programs use point reads only"},
 			NumCases: func(env *core.Env) int {
+				if id == "C04" {
+					return ilNumA(env) + ilNumB(env) + ilNumC(env)
+				}
 				return ilNumA(env) + ilNumB(env)
 			},
 			RunCase: func(env *core.Env, idx int) *core.CaseResult {
 				if idx < ilNumA(env) {
 					return ilCase(env, idx, id)
 				}
-				return ilCaseB(env, idx, id)
+				if idx < ilNumA(env)+ilNumB(env) {
+					return ilCaseB(env, idx, id)
+				}
+				return ilCaseC(env, idx)
 			},
 			Witness:     runSQLWitness,
 			CaseTimeout: 90 * time.Second,
